@@ -25,6 +25,7 @@ type Config struct {
 	CID          int  // 0: no connection IDs; n: both sides use counting n-byte generators
 	MTU          int  // 0: default; n: both sides fragment their flights at n bytes (flights span several datagrams)
 	NoHV         bool // the server skips the cookie exchange (WithInsecureSkipVerifyHello)
+	SkipVerify   bool // the client does not verify certificate chains (WithInsecureSkipVerify): Finished checks are unaffected
 }
 
 var pskKey = []byte{0xC1, 0x4C, 0x14, 0x77, 0x01}
@@ -60,6 +61,9 @@ func Configs() []Config {
 				out = append(out, Config{Name: n + "-mtu200", Primary: f.p, Alt: f.a, PSK: f.psk, EMSOff: emsOff, CID: cid, MTU: 200})
 				if !emsOff && cid == 0 {
 					out = append(out, Config{Name: n + "-nohv", Primary: f.p, Alt: f.a, PSK: f.psk, EMSOff: emsOff, CID: cid, NoHV: true})
+				}
+				if !f.psk && !emsOff {
+					out = append(out, Config{Name: n + "-skipverify", Primary: f.p, Alt: f.a, EMSOff: emsOff, CID: cid, SkipVerify: true})
 				}
 			}
 		}
@@ -262,6 +266,9 @@ func (h *Hist) cfgs() (world.Cfg, world.Cfg) {
 	}
 	c.MTU, s.MTU = h.Cfg.MTU, h.Cfg.MTU
 	s.SkipHelloVerify = h.Cfg.NoHV
+	if h.Cfg.SkipVerify {
+		c.Verify = "skip"
+	}
 	if h.Cfg.CID > 0 {
 		c.Extra = []dtls.Option{dtls.WithConnectionIDGenerator(h.CGen.next)}
 		s.Extra = []dtls.Option{dtls.WithConnectionIDGenerator(h.SGen.next)}
